@@ -2,6 +2,7 @@ mod c03;
 mod c09;
 mod c10;
 mod c13;
+mod compatx;
 mod crashx;
 mod drivers;
 mod enumx;
@@ -52,6 +53,7 @@ fn main() {
                 _ => usage(),
             }
         }
+        "golden-gen" => std::process::exit(compatx::generate()),
         "bench" => bench(),
         "dbg" => debug_bisim(),
         "check" => {
@@ -156,6 +158,16 @@ fn run_check(id: &str, tier: Tier) -> i32 {
                 "oracle: the reference model (so all configurations agree with each other), fileck, DB::check(); an unusual page size may be refused by a panic or Err at the builder or at open, anything else must work".into(),
             ];
             optx::run(&mut c);
+            c.finish()
+        }
+        "C15" => {
+            let mut c = Check::new(id, tier, "exploration");
+            c.assumptions = vec![
+                "golden files were generated once by this harness built against commit 0f60b35 (the pinned source plus the off-by-default verif-hooks guard, which does not touch the write path); they are stored run-length encoded under /verif/golden with the generating history".into(),
+                "the legacy header is reconstructed from the golden header fields with an independent SHA3-256 (the real 0.10 writer is not available offline)".into(),
+                "fileck encodes the pinned layout constants and is the write-side oracle".into(),
+            ];
+            compatx::run(&mut c);
             c.finish()
         }
         "C04" => {
